@@ -499,7 +499,7 @@ def run(tier, seed):
             lab = cell_label(cls, par, loc[i]) if i is not None else "call"
             viols.append({"key": f"C01|{cls}|regime={ri}|{lab}|{kind}",
                           "what": f"{cls} regime {ri} {par} local observer {None if i is None else loc[i].tolist()} exc={EXC[ei]} pose={pi} {field}: {detail}",
-                          "case": {"cls": cls, "regime": ri, "obs": None if i is None else loc[i].tolist(), "exc": ei, "pose": pi, "field": field, "ext": bool(i is not None and ext_of[(cls, ri)][i])},
+                          "case": {"cls": cls, "regime": ri, "obs": None if i is None else loc[i].tolist(), "exc": ei, "pose": pi, "field": field, "tier": tier, "seed": seed},
                           "observed": [kind, str(detail)]})
     ncells = sum(len(v) for v in per.values())
     cov = {
@@ -533,14 +533,27 @@ def run(tier, seed):
 
 
 def replay(case):
+    """re-evaluates the whole (class, regime) cell set of the recorded tier / seed - the batch context is part of the
+    case because some defects only show in vectorised calls - and reports the recorded cell"""
     import magpylib as magpy
 
     Q.set_mu0(magpy.mu_0)
     cls, ri = case["cls"], case["regime"]
     if case["obs"] is None:
         return {"violated": True, "observed": "call raised"}
-    loc = np.array([case["obs"]], float)
-    ref = reference((cls, ri, tuple(loc[0])))
-    outs, _ = evaluate(cls, ri, loc, [ref], "thorough", np.array([bool(case.get("ext"))]))
-    bad = [o for o in outs if o[0] in ("differs", "nonfinite", "raised") and o[3] == case["exc"] and o[4] == case["pose"] and o[5] == case["field"]]
-    return {"violated": bool(bad), "observed": [[b[0], str(b[1])] for b in bad]}
+    tier, seed = case.get("tier", "thorough"), case.get("seed", 0)
+    par = REGIMES[cls][ri]
+    loc, ext = cells(cls, par if cls != "Dipole" else {}, tier, seed)
+    keep = ~on_source(cls, par, loc)
+    loc, ext = loc[keep], ext[keep]
+    cache = load_cache(cls)
+    refs = []
+    for p in loc:
+        k = (ri, tuple(float(x) for x in p))
+        refs.append(cache[k] if k in cache else reference((cls, ri, k[1])))
+    outs, _ = evaluate(cls, ri, loc, refs, tier, ext)
+    target = np.array(case["obs"], float)
+    idx = [i for i, p in enumerate(loc) if np.array_equal(p, target)]
+    bad = [o for o in outs if o[0] in ("differs", "nonfinite", "raised") and (o[2] is None or o[2] in idx)
+           and o[3] == case["exc"] and o[4] == case["pose"] and o[5] == case["field"]]
+    return {"violated": bool(bad), "observed": [[b[0], str(b[1])] for b in bad][:4]}
